@@ -28,6 +28,13 @@ def arg_pool(p):
             {"builders": ["nosuch"]}, {"apps": ["nosuchapp"]}]
     if mods:
         pool += [{"select": [mods[0]]}, {"disable": [mods[-1]]}]
+    # local mode: the directories that define an app, plus one that defines none
+    appdirs = sorted({os.path.dirname(path) for kind, m, path in projcheck.yaml_modules(p) if kind == "apps"})
+    alldirs = sorted({os.path.dirname(f) for f in p["files"]})
+    for d in appdirs[:2] + [x for x in alldirs if x not in appdirs][:1]:
+        pool.append({"local": d})
+    if appdirs:
+        pool.append({"local": appdirs[-1], "define": ["X=1"]})
     return pool
 
 
@@ -52,15 +59,23 @@ def gen_history(seed, i, maxlen):
             evs.append({"e": "swap"})
         else:
             evs.append({"e": "run", "args": rng.choice(pool[:6]), "stop": "after_stat", "edit_during": rng.choice(files)})
+    if rng.random() < 0.35:
+        # a history that moves between start directories (local mode shares one cache file for all of them)
+        loc = [a for a in pool if "local" in a]
+        evs += [{"e": "run", "args": rng.choice(loc)} for _ in range(rng.randint(1, 2))]
+        final = rng.choice(loc)
+        return {"project": p, "events": evs, "final": final}
     final = rng.choice(pool[:9] + [evs[0]["args"]] * 4)
     return {"project": p, "events": evs, "final": final}
 
 
 def key_of(args, uuid, configured=None):
-    k = {"mode": "global", "builders": args.get("builders"), "apps": args.get("apps"), "select": args.get("select"),
+    k = {"mode": "global" if args.get("local") is None else "local:" + os.path.normpath(args["local"] or "."), "builders": args.get("builders"), "apps": args.get("apps"), "select": args.get("select"),
          "disable": args.get("disable"), "define": sorted(args.get("define") or []), "partition": args.get("partition"), "uuid": uuid}
     if configured is not None:
-        cb, ca = configured
+        cb, ca, where = configured
+        if args.get("local") is not None:
+            ca = {a for a in ca if os.path.normpath(where[a] or ".") == os.path.normpath(args["local"] or ".")}
         k["names_known"] = all(b in cb for b in (args.get("builders") or [])) and all(a in ca for a in (args.get("apps") or []))
     return k
 
@@ -72,7 +87,8 @@ def probe(project):
         return None
     builders = {b["name"] for docs in project["files"].values() for d in docs for b in (d.get("builders") or [])}
     apps = {m["name"] for kind, m, path in projcheck.yaml_modules(project) if kind == "apps"}
-    return (builders, apps)
+    where = {m["name"]: os.path.dirname(path) for kind, m, path in projcheck.yaml_modules(project) if kind == "apps"}
+    return (builders, apps, where)
 
 
 class Hist:
@@ -89,11 +105,13 @@ class Hist:
     def binary(self):
         return common.LAZE if self.uuid == 1 else other_binary()
 
+    fam = "global"      # which pair of files (cache, ninja) the current run uses: "global" | "local"
+
     def cache_path(self):
-        return os.path.join(self.s.d, "build", "laze-cache-global.bincode")
+        return os.path.join(self.s.d, "build", f"laze-cache-{self.fam}.bincode")
 
     def ninja_path(self):
-        return os.path.join(self.s.d, "build", "build-global.ninja")
+        return os.path.join(self.s.d, "build", f"build-{self.fam}.ninja")
 
     def edit(self, f, touch=False):
         self.counter += 1
@@ -134,6 +152,7 @@ class Hist:
 
     def run(self, args, stop=None, edit_during=None, generate_only=True, ninja_rc=0):
         env = {}
+        self.fam = "local" if args.get("local") is not None else "global"
         if stop and not edit_during:
             env["LAZE_VERIF_FAULT"] = f"{stop}=abort"
         if edit_during:
@@ -147,7 +166,8 @@ class Hist:
             e = dict(os.environ)
             e.update(env)
             e["LAZE_VERIF_DUMP"] = os.path.join(self.s.d, ".dump.jsonl")
-            cmd = [self.binary(), "-C", self.s.d, "build", "-g", "-G"] + projrun.cli_args(args)
+            cmd = ([self.binary(), "-C", self.s.d, "build", "-g", "-G"] if self.fam == "global" else
+                   [self.binary(), "-C", os.path.join(self.s.d, args["local"]), "build", "-G"]) + projrun.cli_args(args)
             pr = subprocess.Popen(cmd, env=e, stdout=subprocess.PIPE, stderr=subprocess.PIPE)
             for _ in range(2000):
                 if os.path.exists(tag + ".reached") or pr.poll() is not None:
@@ -164,7 +184,7 @@ class Hist:
             self.s_binary = self.binary()
             r = self.invoke(inv, env)
         r["hit"] = "laze: reading cache took" in r["stdout"]
-        if r["rc"] == 0 and not r["hit"] and not stop:
+        if r["rc"] == 0 and not r["hit"] and (not stop or edit_during):
             self.complete.add(self.sha())
         elif stop and not r["hit"] and self.sha() is not None:
             # ground truth for "complete": what an uninterrupted run with these arguments writes for the tree as it is now
@@ -182,7 +202,7 @@ class Hist:
             os.makedirs(os.path.join(d2, "wd"), exist_ok=True)
             r = projrun.run_laze(d2, args, binary=self.binary())
             projrun.read_dump(d2)
-            nf = os.path.join(d2, "build", "build-global.ninja")
+            nf = os.path.join(d2, "build", f"build-{self.fam}.ninja")
             if r["rc"] == 0 and os.path.exists(nf):
                 return hashlib.sha256(open(nf, "rb").read()).hexdigest()
             return None
@@ -227,12 +247,12 @@ def run_history(sc):
                     out["window_edit"] = True
                     # model: run stopped after parse... the edit lands inside the window; model it as kill-free: parse, edit, rest
                     out["model_events"].append({"e": "run", "key": key_of(args, h.uuid, conf), "files": h.files(), "stop": "never", "failing": failing,
-                                                "window_edit": ev["edit_during"]})
+                                                "window_edit": ev["edit_during"], "fam": h.fam})
                 else:
                     out["model_events"].append({"e": "run", "key": key_of(args, h.uuid, conf), "files": h.files(),
-                                                "stop": ev.get("stop") or "never", "failing": failing})
+                                                "stop": ev.get("stop") or "never", "failing": failing, "fam": h.fam})
                 rep = "hit" if r["hit"] else ("done" if r["rc"] == 0 else "stopped")
-                out["obs"].append({"report": rep, "ninja": h.ninja_class(), "cache": "record" if os.path.exists(h.cache_path()) else "absent",
+                out["obs"].append({"fam": h.fam, "report": rep, "ninja": h.ninja_class(), "cache": "record" if os.path.exists(h.cache_path()) else "absent",
                                    "rc": r["rc"], "stderr": r["stderr"][-200:]})
         # final oracle: run R with the final arguments, then the same with an empty build directory
         fa = sc["final"]
@@ -254,10 +274,29 @@ def run_history(sc):
 
 def worker(scs):
     res = [run_history(sc) for sc in scs]
-    reqs = [{"op": "cache", "events": [e for e in r.get("model_events", []) if e is not None and not e.get("window_edit")]} for r in res]
+    # the global and the local mode keep separate (cache, ninja) pairs over the same tree: one model instance per pair
+    reqs, slots = [], []
+    for r in res:
+        evs = [e for e in r.get("model_events", []) if e is not None]
+        for fam in ("global", "local"):
+            idx, mine = [], []
+            for i, e in enumerate(evs):
+                if e["e"] == "edit" or e.get("fam") == fam:
+                    idx.append(i); mine.append(e)
+                elif e.get("window_edit"):
+                    # a run of the other pair that had a file edited under it: for this pair only the edit happened
+                    idx.append(i); mine.append({"e": "edit", "f": e["window_edit"]})
+            reqs.append({"op": "cache", "events": mine})
+            slots.append((r, fam, idx, evs))
     ans = common.model(reqs)
-    for r, a in zip(res, ans):
-        r["model"] = a
+    for (r, fam, idx, evs), a in zip(slots, ans):
+        merged = r.setdefault("model", {"ok": [None] * len(evs)})
+        if merged.get("ok") is None or a.get("ok") is None or len(a["ok"]) != len(idx):
+            r["model"] = {"error": a}
+            continue
+        for i, o in zip(idx, a["ok"]):
+            if evs[i].get("fam", "global") == fam:      # edits are answered by the global instance
+                merged["ok"][i] = o
     return list(zip(scs, res))
 
 
@@ -286,6 +325,9 @@ def judge(chk, sc, res):
                         for b in f["dump_C"]:
                             if b["decision"] != "built":
                                 continue
+                            if ninjaparse.ambiguous(pR, b["outfile"]):
+                                chk.count("skipped:outfile-with-several-producers")     # C06 known finding (outfile collision): the wider file is not loadable
+                                continue
                             if sorted(ninjaparse.closure(pR, b["outfile"])) != sorted(ninjaparse.closure(pC, b["outfile"])):
                                 window = any(e.get("edit_during") for e in sc["events"])
                                 stopped = any(e.get("stop") for e in sc["events"])
@@ -302,20 +344,35 @@ def judge(chk, sc, res):
                             f"an identical command line {f['args']} on an unchanged tree was not served from the cache",
                             {"scenario": {"events": sc["events"], "final": sc["final"], "project": sc["project"]}})
     # never accepted after a change: a run right after an edit/touch/swap/different key must not hit
-    dirty, swapped = False, False
+    dirty, binary_of, uuid, wrote = {"global": False, "local": False}, {"global": 1, "local": 1}, 1, {"global": None, "local": None}
+    case = {"scenario": {"events": sc["events"], "final": sc["final"], "project": sc["project"]}}
     for ev, ob in zip(sc["events"], res["obs"]):
         if ev["e"] in ("edit", "touch"):
-            dirty = True
+            dirty = {"global": True, "local": True}
         elif ev["e"] == "swap":
-            swapped = not swapped
+            uuid = 3 - uuid
         elif ob is not None:
-            if ob["report"] == "hit" and (dirty or swapped):
-                chk.fail_oracle("cache:accepted-after-change", f"cache hit by {ev} although a lazefile or the binary changed since the cache was written",
-                                {"scenario": {"events": sc["events"], "final": sc["final"], "project": sc["project"]}})
+            fam = ob.get("fam", "global")
+            if ob["report"] == "hit" and (dirty[fam] or binary_of[fam] != uuid):
+                chk.fail_oracle("cache:accepted-after-change", f"cache hit by {ev} although a lazefile or the binary changed since the cache was written", case)
+            if ob["report"] == "hit" and wrote[fam] is not None:
+                # the components that must be equal: --select, --disable, --define (as a set), --partition, start directory
+                a, w = ev["args"], wrote[fam]
+                for comp in ("select", "disable", "define", "partition", "local"):
+                    va, vw = a.get(comp), w.get(comp)
+                    if comp == "define":
+                        va, vw = sorted(va or []), sorted(vw or [])
+                    if comp == "local" and va is not None and vw is not None:
+                        va, vw = os.path.normpath(va or "."), os.path.normpath(vw or ".")
+                    if va != vw:
+                        chk.fail_oracle("cache:accepted-after-key-change:" + comp,
+                                        f"cache hit by {a} although it was written by a run with {comp}={w.get(comp)!r}", case)
             if ob["report"] == "done" or (ob["report"] == "stopped" and ev.get("stop") == "after_cache_write"):
-                dirty, swapped = False, False       # a new cache was written for the tree/binary as they are now
+                dirty[fam], binary_of[fam], wrote[fam] = False, uuid, ev["args"]       # a new cache was written for the tree/binary as they are now
+            if ev.get("edit_during") and ob["report"] != "hit":
+                dirty = {"global": True, "local": True}        # a file changed under the run: nothing written by it may vouch for the tree
     # correspondence with the protocol model
-    if not res["window_edit"]:
+    if True:
         chk.disagreements_checked += 1
         m = res["model"]
         mobs = (m or {}).get("ok")
@@ -358,7 +415,9 @@ def run(chk):
 
 def replay(chk, path):
     r0 = json.load(open(path))
-    sc = r0["case"]["scenario"]
+    sc = r0["case"]["scenario"] if "case" in r0 else r0["scenario"]
+    if "project" not in sc and "project" in r0.get("case", {}):
+        sc["project"] = r0["case"]["project"]
     (sc, res), = worker([sc])
     for ev, ob in zip(sc["events"], res.get("obs", [])):
         print(ev, "->", ob)
